@@ -96,7 +96,13 @@ AcceptOk(p, got, d, either) == IF either THEN got => (p.ok /\ p.d <= d)
                                ELSE got <=> (p.ok /\ p.d <= d)
 
 \* "" when the record is explained by the specification, otherwise which expectation failed
-WhyDoc(r) ==
+\* RFC 8259 section 8.1: a parser MAY ignore a leading byte order mark (U+FEFF) instead of treating it as an
+\* error: for such a text both outcomes are allowed, accepting only if the rest is JSON (value not compared).
+WhyBom(r) ==
+  LET p == Parse(Tail(r.in))
+      anyok == r.ok \/ \E k \in 1..Len(r.pm) : r.pm[k].ok
+  IN  IF anyok /\ ~p.ok THEN "accepted a byte order mark followed by something that is not JSON" ELSE ""
+WhyDoc1(r) ==
   LET p == Parse(r.in)
       either == p.ok /\ (p.lone \/ HasBigNum(p.v))
       anyok == r.ok \/ \E k \in 1..Len(r.pm) : r.pm[k].ok
@@ -129,6 +135,7 @@ WhyIdx(r) ==
            LET m == GetMutIdx(v, r.n) IN IF OptSame(m.ref, r.some, r.res) /\ Same(m.after, r.after) THEN "" ELSE "get_mut(index)"
       ELSE LET m == AssignKey(v, r.key, VBool(TRUE)) IN
            IF m.panic = r.panic /\ Same(m.after, r.after) THEN "" ELSE "value[key] = true"
+WhyDoc(r) == IF Len(r.in) >= 1 /\ At(r.in, 1) = 65279 THEN WhyBom(r) ELSE WhyDoc1(r)
 Why(r) == IF r.k = "doc" THEN WhyDoc(r) ELSE IF r.k = "ser" THEN WhySer(r) ELSE WhyIdx(r)
 
 \* Attribution of a mismatch: is the doc record exactly what Part 2 of Json8259 (the model of parser.rs)
